@@ -53,6 +53,7 @@ func (e *Enc) loadFacts(fr *Frame, x *ssa.UnOp, term string) {
 	case *ssa.FieldAddr:
 		if t, s, ok := derefStruct(a.X.Type()); ok {
 			e.fieldFacts(t, s, a.Field, term)
+			e.structInvFacts(fr, a, t)
 		}
 	case *ssa.IndexAddr:
 		k := typeStr(a.X.Type())
@@ -65,6 +66,41 @@ func (e *Enc) loadFacts(fr *Frame, x *ssa.UnOp, term string) {
 		e.typeFacts(x.Type(), term, true)
 	default:
 		e.typeFacts(x.Type(), term, true)
+	}
+}
+
+// structInvFacts: trusted invariants of (immutable, dependency-owned) struct types, assumed for the object
+// a field is read from, in the state of the read.
+func (e *Enc) structInvFacts(fr *Frame, a *ssa.FieldAddr, t types.Type) {
+	n, ok := t.(*types.Named)
+	if !ok || n.Obj().Pkg() == nil {
+		return
+	}
+	key := n.Obj().Pkg().Name() + "." + n.Obj().Name()
+	invs := e.spec.structInv[key]
+	if len(invs) == 0 || fr.curState == nil {
+		return
+	}
+	ad := fr.addrs[a]
+	if ad == nil || len(ad.path) > 0 {
+		return
+	}
+	ref := ad.loc[0]
+	ck := fmt.Sprintf("%s|%s|%d", key, ref, fr.curState.ver)
+	if e.invDone[ck] {
+		return
+	}
+	e.invDone[ck] = true
+	env := &ExprEnv{e: e, fr: fr, vars: map[string]tval{"v": {t: ref, typ: types.NewPointer(t)}}, st: fr.curState, old: fr.curState, a0: fr.a0, pkg: n.Obj().Pkg()}
+	for _, cl := range invs {
+		env.errs = nil
+		f, err := env.formula(cl.Text)
+		if err != nil {
+			e.bindErrs = append(e.bindErrs, fmt.Sprintf("structinv %s: %v", key, err))
+			continue
+		}
+		e.assumeG(f)
+		e.usedTrusted["structinv "+key+": "+cl.Text] = true
 	}
 }
 
@@ -746,6 +782,7 @@ func (e *Enc) loopEntryObs(fr *Frame, li *loopInfo, conds []string, preds []*Sta
 				break
 			}
 			pi := predIndex(li.head, p)
+			li.point = "entry"
 			f, err := c.eval(preds[i], func(ph *ssa.Phi) string { return e.val(fr, ph.Edges[pi]) })
 			if err != nil {
 				e.bindErrs = append(e.bindErrs, fmt.Sprintf("%s: %s: %v", shortName(fr.fn), c.name, err))
@@ -781,6 +818,7 @@ func (e *Enc) loopAssume(fr *Frame, li *loopInfo, st *State) {
 		}
 	}
 	for _, c := range e.loopCands(fr, li) {
+		li.point = "head"
 		f, err := c.eval(st, func(ph *ssa.Phi) string { return fr.vals[ph] })
 		if err != nil {
 			continue
@@ -798,6 +836,7 @@ func (e *Enc) loopBack(fr *Frame, li *loopInfo, from *ssa.BasicBlock, st *State)
 	save := e.cur
 	e.cur = e.edgeCond(fr, from, li.head)
 	for _, c := range e.loopCands(fr, li) {
+		li.point = "back"
 		f, err := c.eval(st, func(ph *ssa.Phi) string { return e.val(fr, ph.Edges[pi]) })
 		if err != nil {
 			continue
@@ -805,6 +844,42 @@ func (e *Enc) loopBack(fr *Frame, li *loopInfo, from *ssa.BasicBlock, st *State)
 		o := e.addOb(fr, "LOOP", "preserve", loopPos(li.head), c.name, f, false)
 		o.houdini = c.id
 		o.tags = c.tags
+	}
+	// termination measure: non-negative at the head and strictly smaller at every back edge
+	if ct := fr.contract; ct != nil && !fr.inl && ct.LoopDec[li.ord] != "" {
+		li.point = "back"
+		env := e.loopEnv(fr, li, st, func(ph *ssa.Phi) string { return e.val(fr, ph.Edges[pi]) })
+		e.bodyVars(fr, li, from, st, env.vars)
+		li.point = "head"
+		henv := e.loopEnv(fr, li, li.state, func(ph *ssa.Phi) string { return fr.vals[ph] })
+		nv, err1 := env.term(ct.LoopDec[li.ord])
+		ov, err2 := henv.term(ct.LoopDec[li.ord])
+		if err1 != nil || err2 != nil {
+			e.bindErrs = append(e.bindErrs, fmt.Sprintf("%s: loop %d decreases: %v %v", ct.Key, li.ord, err1, err2))
+		} else {
+			e.addOb(fr, "TERM", "decreases", loopPos(li.head), fmt.Sprintf("loop %d decreases %s", li.ord, ct.LoopDec[li.ord]), fmt.Sprintf("(and (>= %s 0) (< %s %s))", ov.t, nv.t, ov.t), false)
+		}
+	}
+	// per-iteration contracts: relate the state at the loop head (old) to the state at this back edge
+	if ct := fr.contract; ct != nil && !fr.inl {
+		for _, cl := range ct.IterEns[li.ord] {
+			li.point = "back"
+			env := e.loopEnv(fr, li, st, func(ph *ssa.Phi) string { return e.val(fr, ph.Edges[pi]) })
+			li.point = "head"
+			henv := e.loopEnv(fr, li, li.state, func(ph *ssa.Phi) string { return fr.vals[ph] })
+			// variables defined inside the body are visible too (their value in this iteration)
+			e.bodyVars(fr, li, from, st, env.vars)
+			env.old = li.state
+			env.oldVars = henv.vars
+			env.errs = nil
+			f, err := env.formula(cl.Text)
+			if err != nil {
+				e.bindErr(ct, cl, err)
+				continue
+			}
+			o := e.addOb(fr, "POST", "iter", loopPos(li.head), fmt.Sprintf("loop %d iter %s", li.ord, cl.Text), f, false)
+			o.tags = cl.Tags
+		}
 	}
 	e.cur = save
 }
@@ -835,41 +910,45 @@ func (e *Enc) loopEnv(fr *Frame, li *loopInfo, st *State, phiVal func(*ssa.Phi) 
 	if li.iter != "" {
 		vars["iter"] = tval{t: li.iter, typ: types.Typ[types.Int]}
 	}
-	return &ExprEnv{e: e, fr: fr, vars: vars, st: st, old: fr.entry, a0: fr.a0, pkg: pkgOf(fr.fn)}
+	env := &ExprEnv{e: e, fr: fr, vars: vars, st: st, old: fr.entry, a0: fr.a0, pkg: pkgOf(fr.fn)}
+	if li.vis != "" {
+		switch li.point {
+		case "entry":
+			env.visited = func(k string) string { return "false" }
+		case "back":
+			env.visited = func(k string) string { return "(or (" + li.vis + " " + k + ") (= " + k + " " + li.visKey + "))" }
+		default:
+			env.visited = func(k string) string { return "(" + li.vis + " " + k + ")" }
+		}
+	}
+	return env
 }
 
-// debugVars binds source variables visible at block b through DebugRefs.
-func (e *Enc) debugVars(fr *Frame, at *ssa.BasicBlock, st *State, vars map[string]tval) {
+// bodyVars: source variables assigned inside the loop body, as seen at the end of block at.
+func (e *Enc) bodyVars(fr *Frame, li *loopInfo, at *ssa.BasicBlock, st *State, vars map[string]tval) {
 	type cand struct {
 		v   ssa.Value
-		adr bool
 		pos token.Pos
 	}
 	best := map[string]cand{}
 	for _, b := range fr.fn.Blocks {
-		if !(b == at || b.Dominates(at)) {
+		if !li.body[b] || !(b == at || b.Dominates(at)) {
 			continue
 		}
 		for _, in := range b.Instrs {
 			d, ok := in.(*ssa.DebugRef)
-			if !ok || d.Object() == nil {
+			if !ok || d.Object() == nil || d.IsAddr {
 				continue
 			}
 			if _, isVar := d.Object().(*types.Var); !isVar {
 				continue
 			}
 			if _, known := fr.vals[d.X]; !known {
-				if _, isA := fr.addrs[d.X]; !isA {
-					continue
-				}
-			}
-			if b == at {
 				continue
 			}
 			n := d.Object().Name()
-			c := cand{d.X, d.IsAddr, d.Pos()}
-			if old, ok := best[n]; !ok || c.pos > old.pos {
-				best[n] = c
+			if old, ok := best[n]; !ok || d.Pos() > old.pos {
+				best[n] = cand{d.X, d.Pos()}
 			}
 		}
 	}
@@ -877,16 +956,58 @@ func (e *Enc) debugVars(fr *Frame, at *ssa.BasicBlock, st *State, vars map[strin
 		if _, ok := vars[n]; ok {
 			continue
 		}
-		if c.adr {
-			if al, ok := c.v.(*ssa.Alloc); ok {
-				el := al.Type().Underlying().(*types.Pointer).Elem()
-				a := e.addrOfRef(fr.vals[al], el)
-				vars[n] = tval{t: e.load(fr, st, a), typ: el}
+		vars[n] = tval{t: fr.vals[c.v], typ: c.v.Type()}
+	}
+}
+
+// debugVars binds source variables visible at the end of block at: walking up the dominator tree, the
+// nearest DebugRef (definition or use: both carry the variable's current value) or loop phi named like
+// the variable wins.
+func (e *Enc) debugVars(fr *Frame, at *ssa.BasicBlock, st *State, vars map[string]tval) {
+	found := map[string]bool{}
+	for b := at; b != nil; b = b.Idom() {
+		local := map[string]tval{}
+		for _, in := range b.Instrs {
+			switch d := in.(type) {
+			case *ssa.Phi:
+				if d.Comment != "" {
+					if t, ok := fr.vals[d]; ok {
+						local[d.Comment] = tval{t: t, typ: d.Type()}
+					}
+				}
+			case *ssa.DebugRef:
+				if d.Object() == nil {
+					continue
+				}
+				if _, isVar := d.Object().(*types.Var); !isVar {
+					continue
+				}
+				n := d.Object().Name()
+				if d.IsAddr {
+					if al, ok := d.X.(*ssa.Alloc); ok {
+						if ref, ok := fr.vals[al]; ok {
+							el := al.Type().Underlying().(*types.Pointer).Elem()
+							a := e.addrOfRef(ref, el)
+							local[n] = tval{t: e.load(fr, st, a), typ: el}
+						}
+					}
+					continue
+				}
+				if t, ok := fr.vals[d.X]; ok {
+					local[n] = tval{t: t, typ: d.X.Type()}
+				} else if c, ok := d.X.(*ssa.Const); ok {
+					local[n] = tval{t: e.constVal(c), typ: c.Type()}
+				}
 			}
-			continue
 		}
-		if t, ok := fr.vals[c.v]; ok {
-			vars[n] = tval{t: t, typ: c.v.Type()}
+		for n, v := range local {
+			if found[n] {
+				continue
+			}
+			found[n] = true
+			if _, ok := vars[n]; !ok {
+				vars[n] = v
+			}
 		}
 	}
 }
@@ -927,6 +1048,7 @@ func (e *Enc) verifyFunc() {
 	for i, n := range paramNames(f, fr.contract) {
 		vars[n] = tval{t: fr.vals[f.Params[i]], typ: f.Params[i].Type()}
 	}
+	e.bindFreeVars(fr, st, vars)
 	pre := &ExprEnv{e: e, fr: fr, vars: vars, st: st, old: st, a0: "A0", pkg: pkgOf(f)}
 	ct := fr.contract
 	if ct == nil {
@@ -968,6 +1090,7 @@ func (e *Enc) verifyFunc() {
 					pv[n] = tval{t: r.vals[i], typ: f.Signature.Results().At(i).Type()}
 				}
 			}
+			e.bindFreeVars(fr, r.st, pv)
 			e.debugVars(fr, r.instr.Block(), r.st, pv)
 			post := &ExprEnv{e: e, fr: fr, vars: pv, st: r.st, old: st, a0: "A0", pkg: pkgOf(f)}
 			for _, cl := range ct.Ensures {
@@ -1010,6 +1133,19 @@ func (e *Enc) markOld(t types.Type, term string) {
 		e.oldTerms[term] = true
 	case *types.Slice:
 		e.oldTerms["(sarr "+term+")"] = true
+	}
+}
+
+// bindFreeVars: inside a closure a captured variable is named by its source name; its value is the
+// content of the captured cell in the given state.
+func (e *Enc) bindFreeVars(fr *Frame, st *State, vars map[string]tval) {
+	for _, fv := range fr.fn.FreeVars {
+		pt, ok := fv.Type().Underlying().(*types.Pointer)
+		if !ok {
+			continue
+		}
+		a := e.addrOfRef(fr.vals[fv], pt.Elem())
+		vars[fv.Name()] = tval{t: e.load(fr, st, a), typ: pt.Elem()}
 	}
 }
 
@@ -1079,6 +1215,26 @@ func (e *Enc) finish() {
 				v = "true"
 			}
 			e.assume(fmt.Sprintf("(= (%s %d) %s)", n, e.d.tag(t), v))
+		}
+	}
+	var ufk []string
+	for k := range e.ifaceFieldUFs {
+		ufk = append(ufk, k)
+	}
+	sort.Strings(ufk)
+	for _, k := range ufk {
+		u := e.ifaceFieldUFs[k]
+		iface, _ := u.iface.Underlying().(*types.Interface)
+		for _, mi := range e.mkIfaces {
+			st, ok := mi.typ.Underlying().(*types.Struct)
+			if !ok || !types.Implements(mi.typ, iface) {
+				continue
+			}
+			for i := 0; i < st.NumFields(); i++ {
+				if st.Field(i).Name() == u.field {
+					e.assume("(= (" + u.uf + " " + mi.term + ") " + sel(mi.typ, st, i, mi.val) + ")")
+				}
+			}
 		}
 	}
 	if e.d.seen["ptrtag"] {
